@@ -7,26 +7,26 @@ commits = subprocess.run(["git", "-C", "/repo", "log", "--format=%h %s"], captur
 hook_commits = [c.split()[0] for c in commits if c.split(" ", 1)[1].startswith("verif hooks")]
 SECTION = {p["id"]: "DESIGN.md section 4, " + p["id"] for p in props}
 PROOF_TEXT = {
- "C01": "Theorems: every instruction's register/memory effect equals the manual's parallel-assignment specification (per class), frame theorems for registers and memory; model tied to the code by the per-encoding correspondence (all 1,792 encodings x boundary/seeded states, block repeats with BC=0 from ROM, lock-step programs).",
- "C02": "Theorems: each ALU/rotate/shift/DAA/NEG/RLD/RRD/BIT/CPI/LDI core of the model (the code's formulation) equals the arithmetic specification for all operands and incoming flags; tie: exhaustive 2^24 / 2^16 operand sweeps through real opcodes, hashed per block, plus per-encoding flag routing.",
- "C03": "Theorems: PC after every non-transfer = pc + encoded length (mod 65,536), branch targets and conditions, CALL/RST linkage bytes, RET reload, call/return nesting by induction; tie: every encoding x all 256 F x displacement and PC/SP edge classes.",
- "C04": "Theorems: for every documented encoding the model's count (the code's tables + conditional increments) equals the Zilog figure per instruction class, both outcomes; halted step = 4. Block repeats: the full statement is disproved by a witness (known finding, pinned by the repo's tests). Tie: every encoding x outcomes, implementation count compared with the Zilog figure directly.",
- "C05": "Theorems: the step is total; on an encoding without an arm it returns 255, changes only PC (by the decoded length) and records the opcode bytes in hex; every documented non-I/O encoding decodes to an executed instruction. Tie: all 1,792 rows x states x diagnostics on/off.",
- "C06": "Theorems: every address computation of the model is the modular one (two-branch displacement = sign extension, relative targets, operand fetches, stack, word access at 0xFFFF); the model is total. That the Rust code does not panic is decided by the correspondence only (abort = observable outcome, both build profiles).",
- "C07": "Theorems: byte and word writes never change a ROM byte for every window/alignment/size; every instruction, every step (with interrupt pushes), every unbounded history preserves ROM bytes; writes outside the window take effect. Tie: exhaustive small buses, boundary windows on 64 KiB, every encoding with the window ends placed around its probed write set, random programs.",
- "C08": "Theorems: read-after-write, non-interference, reads above top = 0, writes above top ignored, word/dword accessors = composition of byte accesses (wrapping), word round trip. Tie: all addresses x sizes x word values on both build profiles.",
- "C09": "Theorems: get(set v) = v, halves = hi/lo, other fields unchanged, for all 65,536 values of each pair; flag byte <-> 8 flags bijection with the documented bit positions; PUSH/POP AF, EX AF,AF', EXX carry all bits. Tie: exhaustive accessor round trips and AF transports.",
- "C10": "Theorems: decode(FD op) = rename(decode(DD op)) for every row where both are implemented (kernel-checked tables) and exec commutes with exchanging IX and IY; tie: the relation evaluated on the implementation for all DD/FD and DDCB/FDCB rows.",
- "C11": "Theorems on the step function for every control state: accepted iff IFF1, vector per mode, pushed address, IFF1/IFF2 cleared, latch consumed; acceptances never exceed requests over any history. Tie: control-state grid x all request bytes, exhaustive short histories + random long ones.",
- "C12": "Theorem: with IFF1 clear, step(s with request) = step(s without) on registers, flags, memory, PC, T-states, for every encoding. Tie: twin runs on the implementation for every encoding x request bytes x modes.",
- "C13": "Theorems: NMI acceptance regardless of IFF1/mode (PC=0x66, pushed PC, IFF2:=IFF1, IFF1:=0, simultaneous INT dropped), RETN restores, LD A,I/R expose IFF2; NMI..RETN restores IFF1 over any handler without EI/DI. Tie: control grid + histories.",
- "C14": "Theorems: halted idle step = (unchanged state, 4 T) for any number of steps; wake-up by NMI / enabled INT enters the handler with HALT address + 1 pushed. Tie: HALT scenarios x idle counts x request kinds.",
- "C15": "Theorems: for every recognised opcode the disassembler's size equals the decoder's length (kernel-checked over both tables), hence the PC advance of a non-transfer step. Tie: all 512 rows x operands x addresses.",
- "C16": "Theorems: every template = opcode hex + operand holes + the mnemonic of the decoded instruction in the repository's notation (kernel-checked, 512 rows); templates are pairwise distinct; relative target hole = address + 2 + sext e. Tie: all rows x operand bytes x pair values x addresses.",
- "C17": "Theorems: the architectural outcome of a step is a function of the architectural state alone (diagnostic switches, stale text and slice counters do not enter); no request survives a non-halted step. Tie: twin implementation runs over all 16 switch sets and different prior histories.",
- "C18": "Theorems: timed step = plain step architecturally; a sleep request is returned exactly when the counter exceeds the budget; requested sleep <= slice duration; counter = sum of T-states since the last request (induction over histories). The budget f x 1000 x d: exact integer theorem for f in eighths of a MHz; that the f32 code yields it is checked on the implementation for that grid x every d dividing 1000.",
- "C19": "Theorems: LDIR/LDDR = LDI/LDD iterated n times (n = BC, or 65,536 for 0), CPIR/CPDR = CPI/CPD iterated until match or BC = 0, by induction, any overlap/wrap/ROM. Tie: relation evaluated on the implementation (repeat vs single steps).",
- "C20": "Theorems: slice read returns exactly mem[start..end]; clear zeroes exactly those bytes; load copies the file at the origin, returns its length, leaves the rest; missing file = error value. Tie: all (start,end) of small buses, boundary pairs of large ones, files of every length.",
+ "C01": "Theorems: every instruction's register/memory effect equals the manual's parallel-assignment specification (per class), frame theorems for registers and memory; model tied to the code by the per-encoding correspondence (all 1,792 encodings x boundary/seeded states, block repeats with BC=0 from ROM, lock-step programs). Register sweeps: every encoding x each 16-bit register x all 65,536 values of it (and pairs of registers held in a fixed relation), one hash per sweep on implementation and model, expanded to the failing value. Instructions straddling the top of small memories.",
+ "C02": "Theorems: each ALU/rotate/shift/DAA/NEG/RLD/RRD/BIT/CPI/LDI core of the model (the code's formulation) equals the arithmetic specification for all operands and incoming flags; tie: exhaustive 2^24 / 2^16 operand sweeps through real opcodes, hashed per block, plus per-encoding flag routing. Register sweeps: every encoding x each 16-bit register x all 65,536 values of it (and pairs of registers held in a fixed relation), one hash per sweep on implementation and model, expanded to the failing value. Thorough tier: the 16-bit cores exhaustively (2^33 cases each).",
+ "C03": "Theorems: PC after every non-transfer = pc + encoded length (mod 65,536), branch targets and conditions, CALL/RST linkage bytes, RET reload, call/return nesting by induction; tie: every encoding x all 256 F x displacement and PC/SP edge classes. Register sweeps: every encoding x each 16-bit register x all 65,536 values of it (and pairs of registers held in a fixed relation), one hash per sweep on implementation and model, expanded to the failing value. Every PC of random images; instructions straddling the top of small memories.",
+ "C04": "Theorems: for every documented encoding the model's count (the code's tables + conditional increments) equals the Zilog figure per instruction class, both outcomes; halted step = 4. Block repeats: the full statement is disproved by a witness (known finding, pinned by the repo's tests). Tie: every encoding x outcomes, implementation count compared with the Zilog figure directly. Register sweeps: every encoding x each 16-bit register x all 65,536 values of it (and pairs of registers held in a fixed relation), one hash per sweep on implementation and model, expanded to the failing value. Instructions straddling the top of small memories.",
+ "C05": "Theorems: the step is total; on an encoding without an arm it returns 255, changes only PC (by the decoded length) and records the opcode bytes in hex; every documented non-I/O encoding decodes to an executed instruction. Tie: all 1,792 rows x states x diagnostics on/off. Register sweeps: every encoding x each 16-bit register x all 65,536 values of it (and pairs of registers held in a fixed relation), one hash per sweep on implementation and model, expanded to the failing value. Instructions straddling the top of small memories.",
+ "C06": "Theorems: every address computation of the model is the modular one (two-branch displacement = sign extension, relative targets, operand fetches, stack, word access at 0xFFFF); the model is total. That the Rust code does not panic is decided by the correspondence only (abort = observable outcome, both build profiles). Register sweeps: every encoding x each 16-bit register x all 65,536 values of it (and pairs of registers held in a fixed relation), one hash per sweep on implementation and model, expanded to the failing value. Every PC of random images on three memory sizes, both build profiles.",
+ "C07": "Theorems: byte and word writes never change a ROM byte for every window/alignment/size; every instruction, every step (with interrupt pushes), every unbounded history preserves ROM bytes; writes outside the window take effect. Tie: exhaustive small buses, boundary windows on 64 KiB, every encoding with the window ends placed around its probed write set, random programs. API histories: random sequences of every public call on one object (minimised when they fail). Theorem: the ROM declaration survives every host call except set_romspace (failed/refused/successful loads and clears included).",
+ "C08": "Theorems: read-after-write, non-interference, reads above top = 0, writes above top ignored, word/dword accessors = composition of byte accesses (wrapping), word round trip. Tie: all addresses x sizes x word values on both build profiles. API histories: random sequences of every public call on one object (minimised when they fail).",
+ "C09": "Theorems: get(set v) = v, halves = hi/lo, other fields unchanged, for all 65,536 values of each pair; flag byte <-> 8 flags bijection with the documented bit positions; PUSH/POP AF, EX AF,AF', EXX carry all bits. Tie: exhaustive accessor round trips and AF transports. Register sweeps of the stack/exchange rows over every SP, AF and pair value.",
+ "C10": "Theorems: decode(FD op) = rename(decode(DD op)) for every row where both are implemented (kernel-checked tables) and exec commutes with exchanging IX and IY; tie: the relation evaluated on the implementation for all DD/FD and DDCB/FDCB rows. Register sweeps of every DD/FD/DDCB/FDCB row over all IX, IY, HL, AF, SP values against the model (which provably treats both forms alike), full flag byte.",
+ "C11": "Theorems on the step function for every control state: accepted iff IFF1, vector per mode, pushed address, IFF1/IFF2 cleared, latch consumed; acceptances never exceed requests over any history. Tie: control-state grid x all request bytes, exhaustive short histories + random long ones. API histories: random sequences of every public call on one object (minimised when they fail).",
+ "C12": "Theorem: with IFF1 clear, step(s with request) = step(s without) on registers, flags, memory, PC, T-states, for every encoding. Tie: twin runs on the implementation for every encoding x request bytes x modes. API histories: random sequences of every public call on one object (minimised when they fail). Theorem and twins for timed stepping (same sleep requests and slice counters).",
+ "C13": "Theorems: NMI acceptance regardless of IFF1/mode (PC=0x66, pushed PC, IFF2:=IFF1, IFF1:=0, simultaneous INT dropped), RETN restores, LD A,I/R expose IFF2; NMI..RETN restores IFF1 over any handler without EI/DI. Tie: control grid + histories. API histories: random sequences of every public call on one object (minimised when they fail).",
+ "C14": "Theorems: halted idle step = (unchanged state, 4 T) for any number of steps; wake-up by NMI / enabled INT enters the handler with HALT address + 1 pushed. Tie: HALT scenarios x idle counts x request kinds. API histories: random sequences of every public call on one object (minimised when they fail).",
+ "C15": "Theorems: for every recognised opcode the disassembler's size equals the decoder's length (kernel-checked over both tables), hence the PC advance of a non-transfer step. Tie: all 512 rows x operands x addresses. API histories: random sequences of every public call on one object (minimised when they fail).",
+ "C16": "Theorems: every template = opcode hex + operand holes + the mnemonic of the decoded instruction in the repository's notation (kernel-checked, 512 rows); templates are pairwise distinct; relative target hole = address + 2 + sext e. Tie: all rows x operand bytes x pair values x addresses. API histories: random sequences of every public call on one object (minimised when they fail).",
+ "C17": "Theorems: the architectural outcome of a step is a function of the architectural state alone (diagnostic switches, stale text and slice counters do not enter); no request survives a non-halted step. Tie: twin implementation runs over all 16 switch sets and different prior histories. API histories: random sequences of every public call on one object (minimised when they fail).",
+ "C18": "Theorems: timed step = plain step architecturally; a sleep request is returned exactly when the counter exceeds the budget; requested sleep <= slice duration; counter = sum of T-states since the last request (induction over histories). The budget f x 1000 x d: exact integer theorem for f in eighths of a MHz; that the f32 code yields it is checked on the implementation for that grid x every d dividing 1000. API histories: random sequences of every public call on one object (minimised when they fail). Theorems: what every host call does to the slice bookkeeping (clock changes mid-slice keep the count); exact-arithmetic budget for any f32 clock (Spec.Budget), compared with the implementation on real crystal frequencies and random singles wherever the fraction is not within 0.05 of an integer.",
+ "C19": "Theorems: LDIR/LDDR = LDI/LDD iterated n times (n = BC, or 65,536 for 0), CPIR/CPDR = CPI/CPD iterated until match or BC = 0, by induction, any overlap/wrap/ROM. Tie: relation evaluated on the implementation (repeat vs single steps). Memories smaller than 64K with blocks reaching above the top address.",
+ "C20": "Theorems: slice read returns exactly mem[start..end]; clear zeroes exactly those bytes; load copies the file at the origin, returns its length, leaves the rest; missing file = error value. Tie: all (start,end) of small buses, boundary pairs of large ones, files of every length. API histories: random sequences of every public call on one object (minimised when they fail).",
 }
 checks = []
 for p in props:
